@@ -24,7 +24,7 @@ TOPO = {
     # the lock counts by an entrance switch and holds what it gets (ball_hold); released on request
     'balls4': dict(switches={'bd_trough': ['s_t1', 's_t2', 's_t3'], 'bd_plunger': ['s_plunger'], 'bd_lock': []},
                    target={'bd_trough': 'bd_plunger', 'bd_plunger': 'pf', 'bd_lock': 'pf'}, cap='MCCap4', tgt='MCTarget4',
-                   entrance={'bd_lock': 's_lock_entrance'}, holding=['bd_lock']),
+                   entrance={'bd_lock': 's_lock_entrance'}, holding=['bd_lock'], jam={'bd_trough': 's_tjam'}),
     # the first topology inside a running game: ball save without limit (every drain is saved, re-ejected after 2 s),
     # further balls are requested by a multiball device
     'balls5': dict(switches={'bd_trough': ['s_t1', 's_t2', 's_t3'], 'bd_plunger': ['s_plunger'], 'bd_lock': ['s_lock1', 's_lock2']},
@@ -45,6 +45,8 @@ class World:
         self.TG = TOPO[topo]['target']
         self.CONFIRM = TOPO[topo].get('confirm', {})
         self.ENTRANCE = TOPO[topo].get('entrance', {})
+        self.JAM = TOPO[topo].get('jam', {})
+        self.jammed = {}               # device -> ball resting on its jam switch (in the eject chute) instead of a ball switch
         self.CAP = CAPS[topo]
         self.h = h
         self.m = h.machine
@@ -86,6 +88,11 @@ class World:
         if dev in self.ENTRANCE:
             return      # no ball switches: balls are counted as they pass the entrance
         n = len(self.at(dev))
+        if dev in self.JAM:
+            j = self.jammed.get(dev) in self.at(dev)
+            if int(self.m.switches[self.JAM[dev]].state) != int(j):
+                self.m.switch_controller.process_switch(self.JAM[dev], int(j), logical=True)
+            n -= int(j)
         for i, s in enumerate(self.SW[dev]):
             want = 1 if i < n else 0
             if int(self.m.switches[s].state) != want:
@@ -129,7 +136,7 @@ class World:
         if not balls or kind == 'noleave':
             self.log(op='noleave', d=dev)
             return
-        b = balls[-1]
+        b = self.jammed.pop(dev) if self.jammed.get(dev) in balls else balls[-1]     # a ball in the chute leaves first
         late = kind == 'late'       # arrives after every eject timeout (3-4 s) has expired, well before a ball is given up
         if late:
             self.lateballs.add(b)
@@ -157,6 +164,8 @@ class World:
         place = dst if kind == 'ok' else src
         self.loc[b] = place
         self.lateballs.discard(b)
+        if place in self.JAM and len(self.at(place)) == 1 and len(self.ev) % 2 == 0:
+            self.jammed[place] = b      # the only ball of the device comes to rest on the jam switch alone
         self.since[b] = self.loop.time()
         if place == 'pf':
             self.m.switch_controller.process_switch('s_pf', 1, logical=True)
